@@ -167,6 +167,42 @@ Definition oracle (prop comp : N) (c : sx) (impl : list ev) : bool :=
   | _, _ => true
   end.
 
+(* ---------------------------------------------------------------------------------------------------------------
+   Per-property projection of an observation stream (DESIGN.md section 10).  The correspondence K of a property compares the
+   model's and the implementation's streams through the part the property's theorems speak about: C01 byte sums, C02 (Length
+   field, size), C03 the walk (types, offsets, lengths, landing) and the count fields, C05 the returned handles and the walk;
+   refusals are always kept (the theorems speak about accepted histories only).  Every other property is about whole images.
+   A change of the crate that leaves the projection alone leaves the property's theorems applicable. *)
+Definition walk_digest (comp : N) (img : list N) : list N :=
+  match ts_walk (spec_of comp) with
+  | Some (first, h) =>
+      match walk (S (length img)) h first (skipn first img) with
+      | Some found =>
+          N.of_nat (length img)
+          :: map (fun f => match f with (o, w, _) => field_at img o w end) (ts_counts (spec_of comp) (length found))
+          ++ concat (map (fun x => match x with (ty, off, len) => [ty; N.of_nat off; N.of_nat len] end) found)
+      | None => []          (* the walk fails (a successful digest starts with the image size) *)
+      end
+  | None => [N.of_nat (length img)]
+  end.
+
+Definition project_ev (prop comp : N) (e : ev) : ev :=
+  match e with
+  | EvPanic => EvPanic
+  | EvNum h => match prop with 5 => EvNum h | _ => EvNum 0 end
+  | EvBytes img =>
+      match prop with
+      | 1 => if comp =? 29 then EvBytes [] else EvBytes [sum8 img; if comp =? 30 then sum8 (firstn 20 img) else 0]
+      | 2 => EvBytes [field_at img (if comp =? 30 then 20 else 4) 4; N.of_nat (length img)]
+      | 3 => if (comp =? 22) || (comp =? 14) then EvBytes img else EvBytes (walk_digest comp img)
+      | 5 => EvBytes (walk_digest comp img)
+      | _ => EvBytes img
+      end
+  end.
+
+Definition project (prop comp : N) (evs : list ev) : list ev :=
+  if is_table comp && ((prop =? 1) || (prop =? 2) || (prop =? 3) || (prop =? 5)) then map (project_ev prop comp) evs else evs.
+
 (* helper for the driver's decimal number reader *)
 Definition dec_step (acc d : N) : N := acc * 10 + d.
 
